@@ -2174,6 +2174,8 @@ package gocql
 //@   requires call != nil && streams_wf(c.streams) && 1 <= call.streamID && call.streamID < c.streams.NumStreams
 //@   before Clear: arg0 == c.streams && arg1 == call.streamID
 //@   ensures Clear_calls == 1
+// giving a stream back never waits: the timer is stopped, its channel is not drained (the receive loop calls this)
+//@   ensures[C06] call.timer != nil ==> recvd(call.timer.C) == old(recvd(call.timer.C))
 //@   ensures c.streams == old(c.streams) && call.streamID == old(call.streamID) && streams_wf(c.streams) && c.closed == old(c.closed) && c.calls == old(c.calls) && map_unchanged_except(c.calls)
 
 //@ func (recv FrameHeaderObserver) ObserveFrameHeader
@@ -2285,6 +2287,9 @@ package gocql
 //@   before[C03] buildFrame: (arg0.flags&0x01 != 0) == (c.compressor != nil) && (arg0.flags&0x10 != 0) == (c.version == 5) && arg0.flags&0xec == 0
 //@   before[C01,C06,C07] releaseStream: arg0 == c && arg1 == call && releaseStream_calls == 1 && (writeContext_calls == 0 || (writeContext_ret1 != nil && writeContext_ret0 == 0) || selrecvd(call.resp) == 1)
 //@   before[C06] closeWithError: writeContext_calls == 1 && writeContext_ret1 != nil
+// the caller's timeout channel is closed before the connection may be torn down on its behalf (closeWithError
+// offers the error to every registered call and gives up on one only when its timeout channel is closed)
+//@   before[C06] handleTimeout: closed(call.timeout)
 //@   ensures releaseStream_calls <= 1 && GetStream_calls <= 1 && addCall_calls <= 1 && writeContext_calls <= 1
 //@   ensures result1 == nil ==> result0 != nil && result0.header != nil
 //@   ensures c.streams == old(c.streams)
